@@ -303,16 +303,26 @@ def st_module():
         subfile = None
         if classes and draw(st.integers(0, 2)) == 0:
             subfile = 'from mod import %s\n' % ', '.join(classes) + ''.join('class S%s(%s):\n    def m(self, a):\n        pass\n' % (c_, c_) for c_ in classes)
-        return {'fmt': fmt, 'src': '\n'.join(b.lines) + '\n', 'problems': b.problems, 'broken_value': broken_value, 'offset': offset, 'subfile': subfile}
+        # a third root that re-exports (moves) some of the documented classes and functions: their problems are still those of the
+        # file they are written in, at the lines of that file
+        rexfile = None
+        tops = [ln.split()[1].split(':')[0].split('(')[0] for ln in b.lines if ln.startswith(('class C', 'def f'))]
+        if tops and subfile is None and draw(st.integers(0, 2)) == 0:
+            moved = draw(st.lists(st.sampled_from(tops), min_size=1, max_size=3, unique=True))
+            rexfile = 'from mod import %s\n__all__ = [%s]\n' % (', '.join(moved), ', '.join(repr(x) for x in moved))
+        return {'fmt': fmt, 'src': '\n'.join(b.lines) + '\n', 'problems': b.problems, 'broken_value': broken_value, 'offset': offset, 'subfile': subfile, 'rexfile': rexfile}
     return m()
 
 
-def run_module(src: str, fmt: str, W: bool, subfile: Optional[str] = None) -> Tuple[Optional[int], List[Tuple[str, Any, str]], str]:
+def run_module(src: str, fmt: str, W: bool, subfile: Optional[str] = None, rexfile: Optional[str] = None) -> Tuple[Optional[int], List[Tuple[str, Any, str]], str]:
     files = {'mod.py': src}
     roots = ['mod.py']
     if subfile:
         files['a_sub.py'] = subfile
         roots = ['a_sub.py', 'mod.py']
+    if rexfile:
+        files['exp_z.py'] = rexfile
+        roots = ['exp_z.py', 'mod.py']
     with pydoctor_run(files, roots, ['--docformat=' + fmt, '--project-name=p'] + (['-W'] if W else []), timeout=120) as r:
         if r.exc is not None or r.timeout:
             return None, [], (r.tb or 'timeout')[-500:]
@@ -342,11 +352,11 @@ def check_module(case: Dict[str, Any]) -> Tuple[List[Tuple[str, str]], Dict[str,
     fmt, src, problems = case['fmt'], case['src'], case['problems']
     out: List[Tuple[str, str]] = []
     info: Dict[str, Any] = {'first_line_hits': 0, 'reports': 0}
-    code, msgs, err = run_module(src, fmt, False, case.get('subfile'))
+    code, msgs, err = run_module(src, fmt, False, case.get('subfile'), case.get('rexfile'))
     if code is None:
         info['crashed'] = err
         return [], info
-    codeW, msgsW, err = run_module(src, fmt, True, case.get('subfile'))
+    codeW, msgsW, err = run_module(src, fmt, True, case.get('subfile'), case.get('rexfile'))
     if codeW is None:
         info['crashed'] = err
         return [], info
@@ -408,7 +418,7 @@ def check_module(case: Dict[str, Any]) -> Tuple[List[Tuple[str, str]], Dict[str,
         out.append(('W-changes-messages', '%s\nmessages differ with -W' % desc))
     # metamorphic: shift by k
     k = case.get('shift', 3)
-    code2, msgs2, err = run_module('# shift\n' * k + src if not src.startswith(('"""', "'''", 'r"""', "r'''")) or True else src, fmt, False, case.get('subfile'))
+    code2, msgs2, err = run_module('# shift\n' * k + src if not src.startswith(('"""', "'''", 'r"""', "r'''")) or True else src, fmt, False, case.get('subfile'), case.get('rexfile'))
     if code2 is not None:
         a = sorted((l + k if isinstance(l, int) else l, m) for _p, l, m in msgs)
         bb = sorted((l, m) for _p, l, m in msgs2)
